@@ -1285,7 +1285,7 @@ package jsonpath
 //@   ensures built: indexBuilt(p, text, isOmitted)
 
 //@ func (*jsonPathParser)._unescapeJSONString
-//@   props C02 C19 C16
+//@   props C02 C19 C16 C18
 //@   parsetime
 //@   requires p != nil
 //@   ensures dec: ret0 == jsonDec(old(A_Int[arr(input)]), off(input), len(input)) && ret1 == jsonErr(old(A_Int[arr(input)]), off(input), len(input))
@@ -1341,7 +1341,7 @@ package jsonpath
 //@   requires nodeOK(node) && nodeOK(appendNode)
 
 //@ func (*jsonPathParser).pushChildSingleIdentifier
-//@   props C02 C19 C16
+//@   props C02 C19 C16 C18
 //@   parsetime
 //@   requires p != nil
 //@   requires wf(p.params)
@@ -1612,7 +1612,7 @@ package jsonpath
 // C16 (dot form): the name is the text with each escaping backslash removed.  Proved only relative to the assumed
 // regexp contract above - it pins the way unescape uses the pattern, so that a rewrite has to re-establish it.
 //@ func (*jsonPathParser).unescape
-//@   props C02 C19 C16
+//@   props C02 C19 C16 C18
 //@   parsetime
 //@   requires p != nil
 //@   requires p.unescapeRegex != nil && p.unescapeRegex == unescapeRegex
@@ -1635,18 +1635,29 @@ package jsonpath
 // sqJson(t) / dqJson(t) name the decoding of the byte sequence the table / the plain quoting determines (definitional)
 //@ smt (assert (forall ((A (Array Int Int)) (n Int) (t Str)) (! (=> (and (= n (+ (sqPos t (strlen t)) 1)) (= (select A 0) 34) (= (select A (- n 1)) 34) (forall ((k Int)) (=> (and (<= 0 k) (< k (strlen t))) (sqCellS A t k)))) (= (jsonDec A 0 n) (sqJson t))) :pattern ((jsonDec A 0 n) (strlen t)))))
 //@ smt (assert (forall ((A (Array Int Int)) (n Int) (t Str)) (! (=> (and (= n (+ (strlen t) 2)) (= (select A 0) 34) (= (select A (- n 1)) 34) (forall ((k Int)) (=> (and (<= 0 k) (< k (strlen t))) (= (select A (+ k 1)) (byteAt t k))))) (= (jsonDec A 0 n) (dqJson t))) :pattern ((jsonDec A 0 n) (strlen t)))))
+// C18 (quote style): on a text without quote or backslash the table copies every byte, so the JSON literal it builds is the
+// one the double-quoted form builds and `'name'` / `"name"` denote the same key (lemma quotes).  sqPlainPos is the induction
+// over the recursion of sqEsc / sqPos, proved in /verif/lean/QuoteTable.lean (plain_pos); dqArr(t) names the byte sequence
+// `"` + t + `"` (definitional: such an array exists for every t).
+//@ smt (define-fun sqPlainText ((t Str)) Bool (forall ((k Int)) (! (=> (and (<= 0 k) (< k (strlen t))) (and (not (= (byteAt t k) 39)) (not (= (byteAt t k) 34)) (not (= (byteAt t k) 92)))) :pattern ((byteAt t k)))))
+//@ smt (assert (forall ((t Str) (k Int)) (! (=> (and (sqPlainText t) (<= 0 k) (<= k (strlen t))) (and (not (sqEsc t k)) (= (sqPos t k) (+ k 1)))) :pattern ((sqPos t k)) :pattern ((sqEsc t k)))))
+//@ smt (declare-fun dqArr (Str) (Array Int Int))
+//@ smt (assert (forall ((t Str)) (! (and (= (select (dqArr t) 0) 34) (= (select (dqArr t) (+ (strlen t) 1)) 34)) :pattern ((dqArr t)))))
+//@ smt (assert (forall ((t Str) (k Int)) (! (=> (and (<= 0 k) (< k (strlen t))) (= (select (dqArr t) (+ k 1)) (byteAt t k))) :pattern ((select (dqArr t) (+ k 1))) :pattern ((dqArr t) (byteAt t k)))))
+//@ smt (define-fun quotesGoal ((t Str)) Bool (and (= (jsonDec (dqArr t) 0 (+ (strlen t) 2)) (dqJson t)) (= (jsonDec (dqArr t) 0 (+ (strlen t) 2)) (sqJson t))))
+//@ lemma quotes [C18 C16]: forall t string {len(t)} :: sqPlainText(t) ==> quotesGoal(t) && sqJson(t) == dqJson(t)
 //@ spec sqCell(out []byte, text string, k int) bool = sqEsc(text, k) ? (byteAt(text, k) == 39 ? elemAt(out, sqPos(text, k)) == 39 : (elemAt(out, sqPos(text, k)) == 92 && elemAt(out, sqPos(text, k) + 1) == byteAt(text, k))) : (byteAt(text, k) == 92 ? true : (byteAt(text, k) == 34 ? (elemAt(out, sqPos(text, k)) == 92 && elemAt(out, sqPos(text, k) + 1) == 34) : elemAt(out, sqPos(text, k)) == byteAt(text, k)))
 //@ spec sqValid(text string) bool = forall k {byteAt(text, k)} :: 0 <= k && k < len(text) ==> (sqEsc(text, k) ==> byteAt(text, k) != 34) && (!sqEsc(text, k) ==> byteAt(text, k) != 39)
 
 //@ func (*jsonPathParser).unescapeDoubleQuotedString
-//@   props C02 C19 C16
+//@   props C02 C19 C16 C18
 //@   parsetime
 //@   requires p != nil
 //@   panics ErrorInvalidArgument
 //@   ensures image: ret == dqJson(text)
 
 //@ func (*jsonPathParser).unescapeSingleQuotedString
-//@   props C02 C19 C16
+//@   props C02 C19 C16 C18
 //@   parsetime
 //@   requires p != nil
 //@   panics ErrorInvalidArgument
